@@ -837,7 +837,7 @@ def r02_9(ctx) -> None:
 
 def run(ctx) -> None:
     from .common import forwarding_discipline
-    ctx.guard(forwarding_discipline, "R02.12", ['value', 'recipient', 'enc', 'tag', 'cek', 'aad', 'iv', 'ciphertext', 'ek', 'private_key', 'sender_key', 'verify_all_recipients'], 77)  # arguments are handed on under their own name (generic routing rule, rules/common.py)
+    ctx.guard(forwarding_discipline, "R02.12", ['value', 'recipient', 'enc', 'tag', 'cek', 'aad', 'iv', 'ciphertext', 'ek', 'private_key', 'sender_key', 'verify_all_recipients'], 77, "jwe")  # arguments are handed on under their own name (generic routing rule, rules/common.py)
     ctx.guard(r02_1)
     ctx.guard(r02_2_3)
     ctx.guard(r02_4)
